@@ -60,6 +60,12 @@ func (c *Ctx) Ledger() *ledgerModel {
 							continue
 						}
 						if owner == "internal/ledger.SimpleAccount" && dirtyFields[f] {
+							// loading is not mutating: the dirty field receives the very value that the same function
+							// stores into the corresponding origin field (code read from cache / database), or a copy
+							// made from that origin field - afterwards dirty == origin, nothing is modified
+							if strings.HasPrefix(f, "dirty") && loadsOrigin(fn, x, "origin"+strings.TrimPrefix(f, "dirty")) {
+								continue
+							}
 							fields[f] = true
 						}
 						if _, f2, _, ok2 := core.FieldOf(base); ok2 && f2 == "dirtyAccount" {
@@ -207,4 +213,29 @@ func (m *ledgerModel) boundarySites(inPkgs ...string) []ssa.CallInstruction {
 		}
 	}
 	return out
+}
+
+
+// loadsOrigin: the stored value of st is also stored, in the same function and on the same object, into the
+// origin field originF, or is computed from a load of that origin field.
+func loadsOrigin(fn *ssa.Function, st *ssa.Store, originF string) bool {
+	_, _, base, _ := core.FieldOf(st.Addr)
+	if core.Mentions(st.Val, func(v ssa.Value) bool {
+		_, f, b, ok := core.FieldOf(v)
+		return ok && f == originF && sameValue(b, base)
+	}) {
+		return true
+	}
+	for _, b := range fn.Blocks {
+		for _, in := range b.Instrs {
+			o, ok := in.(*ssa.Store)
+			if !ok || o == st {
+				continue
+			}
+			if _, f, ob, okf := core.FieldOf(o.Addr); okf && f == originF && sameValue(ob, base) && sameValue(o.Val, st.Val) {
+				return true
+			}
+		}
+	}
+	return false
 }
